@@ -161,6 +161,7 @@ func runC04(o *Out) {
 	}
 	o.count("round_trippable_values", int64(made))
 	c04Streams(o, r)
+	c04Base64(o)
 }
 
 // the text Marshal wrote, read back into an interface{} (UseNumber): go-json's reading beside the model's
